@@ -80,8 +80,12 @@ mod utils {
     } else if start_path.is_dir()
       && let Ok(read_dir_result) = fs::read_dir(start_path)
     {
-      for entry in read_dir_result.into_iter().flatten() {
-        walk(heap, configuration, absolute_source_path, entry.path().as_path(), sources);
+      // Directory enumeration order is OS-defined; module references (and the strings of their
+      // names) are allocated in walk order, so walk in sorted path order.
+      let mut paths = read_dir_result.into_iter().flatten().map(|entry| entry.path()).collect::<Vec<_>>();
+      paths.sort();
+      for path in paths {
+        walk(heap, configuration, absolute_source_path, path.as_path(), sources);
       }
     }
   }
